@@ -58,7 +58,7 @@ Definition project_def (a:appname) (d:tdef) : pdef :=
   | DRelation pk fs => PRelation pk (map (project_field a) (sorted_by f_name fs))
   | DAlias mt => PAlias (parse_field_type a mt)
   | DEnum items => PEnum (map fst items) (map snd items)
-  | DOther => POther
+  | DMap _ _ | DOneOf _ | DNoType | DList _ | DUnset => POther
   end.
 
 Definition project_item (g:grammar) (sa:list str) (it:sitem (list N)) : pitem :=
@@ -88,7 +88,7 @@ Definition project_ep (g:grammar) (a:appname) (sa:list str) (e:endpoint) : pelem
 
 Definition project_type (a:appname) (t:typedecl) : pelem :=
   PType (t_name t) (t_doc t) (zb (t_opt t)) (project_def a (t_def t)) (cattrs (t_attrs t)).
-Definition project_view (a:appname) (v:view) : pelem := PView (v_name v) (parse_field_type a (v_ret v)) (cattrs (v_attrs v)).
+Definition project_view (a:appname) (v:view) : pelem := PView (v_name v) (view_ty a v) (cattrs (v_attrs v)).
 Definition project_mixin (m:appname * attrs) : pelem := PMixin (fst m) (cattrs (snd m)).
 
 Definition visible_ep (e:endpoint) : bool := negb (ep_skipped e).
@@ -451,12 +451,12 @@ Lemma decode_def_rows a t :
            | DRelation pk fs => mk RTable a (t_name t :: pk) [] [] TyNil :: concat (map (field_rows a (t_name t)) (sorted_by f_name fs))
            | DAlias mt => [mk RAlias a [t_name t] [] [] (parse_field_type a mt)]
            | DEnum items => [mk REnum a (t_name t :: map fst items) [] (map snd items) TyNil]
-           | DOther => []
+           | DMap _ _ | DOneOf _ | DNoType | DList _ | DUnset => []
            end in
   decode_def (d ++ meta OType a [t_name t] [] [] (t_attrs t)) = project_def a (t_def t).
 Proof.
   cbv zeta. unfold decode_def, decode_fields, project_def.
-  destruct (t_def t) as [fs|pk fs|mt|items|].
+  destruct (t_def t) as [fs|pk fs|mt|items|mk_ mv_|ts| |lt|].
   - rewrite !keep_app, (keep_fields_other [RTable; RAlias; REnum]), (keep_meta_other [RTable; RAlias; REnum]) by reflexivity.
     cbn [List.app]. rewrite (keep_fields_self Lfield), (keep_meta_other Lfield) by reflexivity.
     rewrite app_nil_r, decode_fields_rows. reflexivity.
@@ -467,20 +467,24 @@ Proof.
   - cbn [List.app]. rewrite !keep_cons, !relin_mk. cbn [existsb relname_eqb orb]. reflexivity.
   - cbn [List.app]. rewrite !keep_cons, !relin_mk. cbn [existsb relname_eqb orb]. reflexivity.
   - cbn [List.app]. rewrite (keep_meta_other [RTable; RAlias; REnum]), (keep_meta_other Lfield) by reflexivity. reflexivity.
+  - cbn [List.app]. rewrite (keep_meta_other [RTable; RAlias; REnum]), (keep_meta_other Lfield) by reflexivity. reflexivity.
+  - cbn [List.app]. rewrite (keep_meta_other [RTable; RAlias; REnum]), (keep_meta_other Lfield) by reflexivity. reflexivity.
+  - cbn [List.app]. rewrite (keep_meta_other [RTable; RAlias; REnum]), (keep_meta_other Lfield) by reflexivity. reflexivity.
+  - cbn [List.app]. rewrite (keep_meta_other [RTable; RAlias; REnum]), (keep_meta_other Lfield) by reflexivity. reflexivity.
 Qed.
 
 (* ---------- elements of an application ---------- *)
 Definition mixin_split (a:appname) (m:appname * attrs) : row * list row :=
   (mk RMixin a (fst m) [] [] TyNil, meta OMixin a (fst m) [] [] (snd m)).
 Definition view_split (a:appname) (v:view) : row * list row :=
-  (mk RView a [v_name v] [] [] (parse_field_type a (v_ret v)), meta OView a [v_name v] [] [] (v_attrs v)).
+  (mk RView a [v_name v] [] [] (view_ty a v), meta OView a [v_name v] [] [] (v_attrs v)).
 Definition def_rows (a:appname) (t:typedecl) : list row :=
   match t_def t with
   | DTuple fs => concat (map (field_rows a (t_name t)) (sorted_by f_name fs))
   | DRelation pk fs => mk RTable a (t_name t :: pk) [] [] TyNil :: concat (map (field_rows a (t_name t)) (sorted_by f_name fs))
   | DAlias mt => [mk RAlias a [t_name t] [] [] (parse_field_type a mt)]
   | DEnum items => [mk REnum a (t_name t :: map fst items) [] (map snd items) TyNil]
-  | DOther => []
+  | DMap _ _ | DOneOf _ | DNoType | DList _ | DUnset => []
   end.
 Definition type_split (a:appname) (t:typedecl) : row * list row :=
   (mk RType a [t_name t; t_doc t] [] [zb (t_opt t)] TyNil, def_rows a t ++ meta OType a [t_name t] [] [] (t_attrs t)).
@@ -536,7 +540,7 @@ Qed.
 Definition Ldef : list relname := [RTable; RAlias; REnum] ++ Lfield.
 Lemma allin_def_rows a t : allin Ldef (def_rows a t) = true.
 Proof.
-  unfold def_rows. destruct (t_def t) as [fs|pk fs|mt|items|]; try reflexivity.
+  unfold def_rows. destruct (t_def t) as [fs|pk fs|mt|items|mk_ mv_|ts| |lt|]; try reflexivity.
   - apply (allin_mono Lfield Ldef _ eq_refl (allin_fields_rows _ _ _)).
   - cbn [allin forallb]. fold (allin Ldef (concat (map (field_rows a (t_name t)) (sorted_by f_name fs)))).
     rewrite (allin_mono Lfield Ldef _ eq_refl (allin_fields_rows _ _ _)). reflexivity.
@@ -701,12 +705,12 @@ Proof. intros H1 H2. rewrite <- (rows_lossless _ _ _ H1), <- (rows_lossless _ _ 
    keeps field types / optionality / reference targets, annotation values, source positions and the payload's status,
    type target and attributes apart *)
 Definition ex_g : grammar :=
-  {| g_prim_mode := PrimWord; g_prims := [bytes "int64"; bytes "int"; bytes "string"]; g_mods := ModsSorted; g_dup := DupRefused |}.
+  {| g_prim_mode := PrimWord; g_prims := [bytes "int64"; bytes "int"; bytes "string"]; g_mods := ModsSorted; g_dup := DupRefused; g_nil := NilGuarded |}.
 Definition ex_sc (line:N) : srcctx := {| sc_file := 70%positive; sc_pos := [line; 1; line; 9]%N |}.
 Definition ex_an (v:aval) : anno := {| an_name := 60%positive; an_val := v; an_srcs := [ex_sc 3] |}.
 Definition ex_at (v:aval) (line:N) : attrs := {| a_tags := [50%positive]; a_annos := [ex_an v]; a_srcs := [ex_sc line] |}.
 Definition ex_fa (n:positive) (t:mtype) (o:bool) : field :=
-  {| f_name := n; f_ty := t; f_opt := o; f_constraints := [{| c_len := Some (1, 9)%Z; c_prec := 0%Z; c_scale := 0%Z |}];
+  {| f_name := n; f_ty := t; f_opt := o; f_constraints := [{| c_len := Some (1, 9)%Z; c_prec := 0%Z; c_scale := 0%Z; c_range := None; c_bits := 0%Z; c_res := None |}];
      f_attrs := ex_at (AVStr 61%positive) 4 |}.
 Definition ex_mod (t:mtype) (o:bool) (v:aval) (line:N) (payload:string) : module :=
   [{| ap_name := [8%positive]; ap_sname := [bytes "App"]; ap_long := 9%positive; ap_doc := 9%positive;
